@@ -206,3 +206,294 @@ def check_offset_fields(ctx, rep):
     else:
         rep.bad("T-OFFSET", "T-OFFSET:offset-sign", b.where((east + west + [0])[0]), "the offset's direction is not selected by the sign character (east_opt sites %s, west_opt sites %s): negative offsets are read wrongly" % (east, west))
     return n
+
+
+# ---------------------------------------------------------------------- zone names: writer's short name vs reader's lookup, all zones
+import glob
+import os
+
+
+def zone_table(ctx):
+    """zone ids of the bundled IANA database, read from the table chrono-tz's build script generated for *this* build
+    (the extraction runs the real build; OUT_DIR/timezones.rs holds `Tz::X => "Area/City"` for every zone)"""
+    from vlib import extract
+
+    cands = sorted(glob.glob(os.path.join(extract.CACHE, "target-*", "debug", "build", "chrono-tz-*", "out", "timezones.rs")), key=os.path.getmtime)
+    if not cands:
+        return None, None
+    txt = open(cands[-1], encoding="utf-8").read()
+    m = re.search(r"pub fn name\(self\)[^{]*\{\s*match self \{(.*?)\n\s*\}\s*\}", txt, re.S)
+    if not m:
+        return None, cands[-1]
+    names = re.findall(r'Tz::\w+\s*=>\s*"([^"]+)"', m.group(1))
+    return names, cands[-1]
+
+
+def short_name_model(prog):
+    """how timezone_short_name cuts the zone id: ("after-first", '/') when it is id[id.find(<ch>).map_or(0, |v| v + 1)..]"""
+    from rules import panic as P
+
+    b = prog.get("haystack::timezone::iana::timezone_short_name")
+    if b is None:
+        return None, None, "timezone_short_name not found"
+    for bi, t in b.calls():
+        nm = strip_generics(mir.callee_name(t) or "")
+        if nm.endswith("ops::Index for str>::index") or nm.endswith("SliceIndex<str>>::index"):
+            recv = G.describe(b, t["args"][0])
+            rng = G.describe(b, t["args"][1])
+            if not (rng.kind == "agg" and rng.v == "RangeFrom" and rng.args):
+                return b, None, "the id is not sliced with a `start..` range (%s)" % rng
+            k = rng.args[0]
+            if not (k.kind == "call" and k.v == "std::option::Option::map_or" and len(k.args) == 3):
+                return b, None, "slice start is not find(..).map_or(0, ..) (%s)" % k
+            f, dflt, _clo = k.args
+            if not (f.kind == "call" and f.v in ("core::str::<impl str>::find", "core::str::<impl str>::rfind") and f.args[0].same(recv)):
+                return b, None, "slice start does not come from find() on the id itself (%s)" % f
+            if not (dflt.kind == "const" and dflt.v == 0):
+                return b, None, "default start is not 0"
+            if not (f.args[1].kind == "const"):
+                return b, None, "delimiter is not a constant char"
+            cids = [c for c in prog.closures_of.get(b.id, [])]
+            if not any(P._closure_is_plus_one(prog, c) for c in cids):
+                return b, None, "closure is not |v| v + 1"
+            # the sliced string must be the zone id: offset().tz_id()
+            if "tz_id" not in repr(recv):
+                return b, None, "the sliced string is not the zone id (%s)" % recv
+            return b, ("after-first" if f.v.endswith("::find") else "after-last", chr(f.args[1].v)), None
+    return b, None, "no slice of the zone id found"
+
+
+def prefix_table(prog):
+    """the area prefixes find_timezone tries, in order: the constant strings of its array literal"""
+    b = prog.get("haystack::timezone::iana::find_timezone")
+    if b is None:
+        return None, None
+    out = []
+    for blk in b.blocks:
+        for st in blk["stmts"]:
+            if st["k"] == "assign" and st["rv"]["k"] == "agg" and st["rv"].get("ak") == "array":
+                vals = [G.describe(b, o) for o in st["rv"]["ops"]]
+                if vals and all(v.kind == "conststr" for v in vals):
+                    out = [v.v for v in vals]
+    if not out:
+        for pb in b.promoted:
+            for blk in pb.blocks:
+                for st in blk["stmts"]:
+                    if st["k"] == "assign" and st["rv"]["k"] == "agg" and st["rv"].get("ak") == "array":
+                        vals = [G.describe(pb, o) for o in st["rv"]["ops"]]
+                        if vals and all(v.kind == "conststr" for v in vals):
+                            out = [v.v for v in vals]
+    # the format template joining prefix and name
+    sep = None
+    for cid in prog.closures_of.get(b.id, []):
+        cb = prog.bodies[cid]
+        for bi, t in cb.calls():
+            nm = strip_generics(mir.callee_name(t) or "")
+            if nm == "std::fmt::format" or nm.endswith("fmt::Arguments::new"):
+                a = fmtargs.arguments_of(cb, t["args"][0]) if nm == "std::fmt::format" else None
+                if a and a[0] is not None:
+                    lits = [p[1] for p in a[0] if p[0] == "lit"]
+                    holes = [p for p in a[0] if p[0] != "lit"]
+                    if len(holes) == 2 and lits == ["/"]:
+                        sep = "/"
+    return out, sep
+
+
+def check_zone_names(ctx, rep):
+    """T-ZONES: for every zone of the bundled database, the name the writers emit (timezone_short_name) is resolved by the
+    readers' lookup (find_timezone: exact id, else the first area prefix for which `prefix/name` exists) - to some zone at all,
+    and to the same zone unless another zone shares the city name (outside the model of the property)"""
+    prog = ctx.prog
+    names, src = zone_table(ctx)
+    if not names:
+        rep.gap("chrono-tz zone table", src or "-", "generated timezones.rs not found in the extraction's build directory")
+        return 0
+    b, model, why = short_name_model(prog)
+    if model is None:
+        rep.bad("T-ZONES", "T-ZONES:short-name:shape", b.where() if b else "-", "timezone_short_name is not `id[id.find('/').map_or(0, |v| v + 1)..]`: %s" % why)
+        return 1
+    prefixes, sep = prefix_table(prog)
+    if not prefixes or sep != "/":
+        rep.gap("find_timezone prefix table", "-", "array of area prefixes / the \"{prefix}/{name}\" template not found (prefixes=%s sep=%s)" % (prefixes, sep))
+        return 1
+    rep.ok("T-ZONES", "short-name:shape", b.where(), "short name = zone id after the %s %r" % ("first" if model[0] == "after-first" else "last", model[1]))
+    ids = set(names)
+    rep.floor("zone ids in the bundled database", len(ids), 500)
+
+    def short(z):
+        i = z.find(model[1]) if model[0] == "after-first" else z.rfind(model[1])
+        return z[i + 1:] if i >= 0 else z
+
+    def resolve(s):
+        if s in ids:
+            return s
+        for p in prefixes:
+            if p + "/" + s in ids:
+                return p + "/" + s
+        return None
+
+    n = 1
+    lost = {}
+    other = []
+    same = 0
+    for z in names:
+        r = resolve(short(z))
+        if r is None:
+            lost.setdefault(z.split("/")[0], []).append(z)
+        elif r != z:
+            other.append((z, r))
+        else:
+            same += 1
+    fz = prog.get("haystack::timezone::iana::find_timezone")
+    for area, zs in sorted(lost.items()):
+        n += 1
+        rep.bad("T-ZONES", "T-ZONES:unresolvable-area:%s" % area, fz.where(), "%d zone(s) of area %s are written by their short name but no lookup finds them again (%s): a timestamp in such a zone encodes to text the decoder rejects" % (len(zs), area, ", ".join(zs[:6]) + (" ..." if len(zs) > 6 else "")))
+    # the Zinc reader's zone-name token: first byte A-Z, then its continuation class; every short name must be such a token
+    from rules import escapes as _esc, scanai as _scanai
+
+    tzn = prog.get("haystack::encoding::zinc::decode::scalar::date_time::parse_time_zone_name")
+    got = _esc.loop_accept_class(prog, _scanai.AI(prog), tzn) if tzn is not None else None
+    if got is None:
+        rep.gap("parse_time_zone_name continuation class", "-", "class not extracted")
+    else:
+        n += 1
+        badc = {}
+        for z in names:
+            sname = short(z).encode("utf-8")
+            if not sname or not (65 <= sname[0] <= 90):
+                badc.setdefault("first:" + chr(sname[0]) if sname else "empty", []).append(z)
+            for ch in sname[1:]:
+                if not (got >> ch) & 1:
+                    badc.setdefault(chr(ch), []).append(z)
+        for ch, zs in sorted(badc.items()):
+            rep.bad("T-ZONES", "T-ZONES:alphabet:%s" % ch, tzn.where(), "%d zone name(s) contain %r, which the Zinc reader's zone-name token does not accept (%s): the name is cut short or rejected" % (len(zs), ch, ", ".join(zs[:5])))
+        if not badc:
+            rep.ok("T-ZONES", "alphabet", tzn.where(), "all %d short names are tokens of the reader's zone-name class %s" % (len(names), _scanai.mask_str(got)))
+    n += 1
+    rep.ok("T-ZONES", "resolvable", fz.where(), "%d of %d zone ids resolve back to themselves through short name + prefix table %s; %d resolve to another zone that shares the city name (ambiguous names, outside the model); %d unresolvable" % (same, len(names), prefixes, len(other), sum(len(v) for v in lost.values())))
+    return n
+
+
+# ---------------------------------------------------------------------- timestamps rebuilt from components keep every component
+def _family(prog, root_id):
+    out = [prog.bodies[root_id]]
+    st = [root_id]
+    while st:
+        x = st.pop()
+        for c in prog.closures_of.get(x, []):
+            out.append(prog.bodies[c])
+            st.append(c)
+    return out
+
+
+HMS_BUILDERS = ("chrono::TimeZone::with_ymd_and_hms", "chrono::NaiveDate::and_hms_opt", "chrono::NaiveTime::from_hms_opt", "chrono::NaiveDate::and_hms")
+
+
+def check_component_rebuild(ctx, rep):
+    """a constructor that takes whole seconds (with_ymd_and_hms, and_hms_opt, from_hms_opt) fed from the hour / minute / second
+    accessors of a parsed time drops the sub-second part unless the same function also reads nanosecond() and restores it with
+    with_nanosecond(): required wherever a timestamp is rebuilt from the components of another one"""
+    prog = ctx.prog
+    n = 0
+    for b in prog.bodies.values():
+        if b.rec["kind"] == "Closure" or not (b.file.startswith("src/haystack/encoding/") or b.file.startswith("src/haystack/timezone/") or b.file.startswith("src/haystack/val/")):
+            continue
+        fam = _family(prog, b.id)
+        names = []
+        site = None
+        for fb in fam:
+            for bi, t in fb.calls():
+                nm = strip_generics(mir.callee_name(t) or "")
+                names.append(nm)
+                if nm in HMS_BUILDERS and site is None:
+                    site = (fb, bi)
+        if site is None:
+            continue
+        from_accessors = any(x.endswith("Timelike>::second") or x.endswith("Timelike::second") for x in names)
+        if not from_accessors:
+            continue  # built from literals / integers that never had a sub-second part
+        n += 1
+        has_read = any(x.endswith("Timelike>::nanosecond") or x.endswith("Timelike::nanosecond") for x in names)
+        has_restore = any(x.endswith("Timelike>::with_nanosecond") or x.endswith("Timelike::with_nanosecond") for x in names)
+        key = "rebuild-keeps-subseconds:%s" % b.short
+        if has_read and has_restore:
+            rep.ok("T-TIMEFIELDS", key, site[0].where(site[1]), "hour / minute / second feed a whole-second constructor and nanosecond() is restored with with_nanosecond()")
+        else:
+            rep.bad("T-TIMEFIELDS", "T-TIMEFIELDS:" + key, site[0].where(site[1]), "%s rebuilds a time from hour(), minute(), second() through a whole-second constructor but never %s: the fractional second of the input is lost" % (b.short.split("::")[-1], "reads nanosecond()" if not has_read else "restores it with with_nanosecond()"))
+    return n
+
+
+def check_utc_shortcut(ctx, rep):
+    """the Zinc reader builds a UTC timestamp without looking the zone name up only under `tz == "UTC"`: any other way into that
+    branch (e.g. 'no numeric offset was written', which is also the `Z London` spelling) drops a named zone"""
+    prog = ctx.prog
+    b = prog.get("haystack::encoding::zinc::decode::scalar::date_time::parse_datetime")
+    if b is None:
+        rep.gap("parse_datetime", "-", "not found")
+        return 0
+    n = 0
+    for bi, t in b.calls():
+        c = callee_of(t)
+        if c is None:
+            continue
+        nm = strip_generics(c.get("res") or c["fn"])
+        targs = [x for x in c.get("targs", []) if not x.startswith("'")]
+        if not ((nm.endswith("Into>::into") or nm.endswith("Into<U>>::into") or nm.endswith("::from")) and any("DateTime<chrono::Utc>" in x or "DateTime<Utc>" in x for x in targs)):
+            continue
+        n += 1
+        gs = G.guards_at(b, bi)
+        ok = any(g.op == "True" and g.a is not None and g.a.kind == "call" and g.a.v.endswith("PartialEq>::eq") and any(a.kind == "conststr" and a.v == "UTC" for a in g.a.args) for g in gs)
+        if ok:
+            rep.ok("T-TZGUARD", "reader:utc-shortcut-only-for-UTC", b.where(bi), "the lookup-free UTC result is dominated by the true edge of `tz == \"UTC\"`")
+        else:
+            rep.bad("T-TZGUARD", "T-TZGUARD:reader:utc-shortcut-only-for-UTC", b.where(bi), "parse_datetime returns a plain UTC timestamp on a path that is not guarded by `tz == \"UTC\"` alone: a named zone written with the Z spelling (`...Z London`) is dropped")
+    return n
+
+
+# ---------------------------------------------------------------------- strftime patterns keep the fractional second
+LOSSLESS_FRACTION = ("%.f", "%.9f", "%f")
+TIME_TEXT_WRITERS = (
+    "haystack::encoding::json::encode::<impl serde::Serialize for haystack::val::time::Time>::serialize",
+    "<haystack::val::time::Time as haystack::encoding::zinc::encode::ToZinc>::to_zinc",
+    "<haystack::val::time::Time as std::fmt::Display>::fmt",
+)
+
+
+def check_strftime(ctx, rep):
+    """time-of-day text: (a) every chrono strftime call on a value with a time part (NaiveTime / NaiveDateTime / DateTime ::format)
+    in the value types and encoders uses a constant pattern that prints the whole fractional second (%.f, %.9f or %f);
+    (b) the Time writers take their text from Display / Debug of the chrono value, which prints all digits"""
+    prog = ctx.prog
+    n = 0
+    for b in prog.bodies.values():
+        if not (b.file.startswith("src/haystack/encoding/") or b.file.startswith("src/haystack/val/")):
+            continue
+        k = 0
+        for bi, t in b.calls():
+            nm = strip_generics(mir.callee_name(t) or "")
+            if not re.match(r"^chrono::(NaiveTime|NaiveDateTime|DateTime)::format(_with_items)?$", nm):
+                continue
+            n += 1
+            pat = G.describe(b, t["args"][1]) if len(t["args"]) > 1 else None
+            key = "strftime:%s#%d" % (b.short, k)
+            k += 1
+            if pat is not None and pat.kind == "conststr" and any(x in pat.v for x in LOSSLESS_FRACTION):
+                rep.ok("T-TSFMT", key, b.where(bi), "pattern %r prints the whole fractional second" % pat.v)
+            elif pat is not None and pat.kind == "conststr" and not re.search(r"%[HMSTXRr]|%[-_0]?[HMSI]", pat.v):
+                rep.ok("T-TSFMT", key, b.where(bi), "pattern %r prints no time of day" % pat.v)
+            else:
+                rep.bad("T-TSFMT", "T-TSFMT:strftime:%s" % b.short, b.where(bi), "%s formats a time of day with pattern %s, which drops (part of) the fractional second: the value read back differs" % (b.short.split("::")[-1], pat))
+    for short in TIME_TEXT_WRITERS:
+        b = next((x for x in prog.bodies.values() if x.short == short), None)
+        if b is None:
+            rep.gap("Time writer " + short, "-", "not found")
+            continue
+        n += 1
+        names = [strip_generics(mir.callee_name(t) or "") for _, t in b.calls()]
+        via_display = any(x.endswith("ToString>::to_string") or x.endswith("ToString::to_string") or x.endswith("Debug>::fmt") or x.endswith("Display>::fmt") or x.endswith("Write::write_fmt") for x in names)
+        key = "time-text-from-display:%s" % short.split(" as ")[-1].split("::")[-2 if short.endswith("serialize") else -1]
+        if via_display:
+            rep.ok("T-TSFMT", "time-text:%s" % short, b.where(), "text comes from Display / Debug of the chrono value (all sub-second digits)")
+        else:
+            rep.bad("T-TSFMT", "T-TSFMT:time-text:%s" % short, b.where(), "the Time writer does not take its text from Display (calls: %s)" % sorted(set(x.split("::")[-1] for x in names)))
+    return n
